@@ -47,6 +47,12 @@ def fwd_case(draw, max_tasks=8, fixed=True, late_clock=True, balance=None, taskd
                     t['start'] = iso(day(P) + timedelta(days=draw(st.integers(-10, 10))))
                 elif k == 2 and end_only:   # an end recorded without a start (only where start <= end is not judged, see F12)
                     t['end'] = iso(N - timedelta(days=draw(st.integers(0, 30)), hours=draw(st.integers(0, 5))))
+    for t in spec['tasks']:
+        # the user may have put dates on summary tasks (they are replaced by roll-ups); an end in the future would be refused
+        if not m.is_leaf(t['id']) and draw(st.integers(0, 4)) == 0:
+            e = N - timedelta(days=draw(st.integers(0, 40)), hours=draw(st.integers(0, 9)))
+            t['end'] = iso(e)
+            t['start'] = iso(e - timedelta(days=draw(st.integers(0, 20)))) if draw(st.booleans()) else None
     sd = nm == 'equal' and draw(st.booleans())
     if m.order and draw(st.integers(0, 5)) == 0:
         # dated predecessors outside the WBS (some with the id of a member)
@@ -66,6 +72,12 @@ def bwd_case(draw, max_tasks=8, balance=None, taskdep=False, **kw):
     spec = draw(specs.wbs_spec(max_tasks=max_tasks, **kw))
     rs = draw(specs.resources_spec(backward=True))
     specs.clamp_work(spec, rs, factor=30)
+    mm = Model(spec)
+    for t in spec['tasks']:
+        if not mm.is_leaf(t['id']) and draw(st.integers(0, 4)) == 0:
+            e = BASE + timedelta(days=draw(st.integers(-40, 60)), hours=draw(st.integers(0, 9)))
+            t['end'] = iso(e)
+            t['start'] = iso(e - timedelta(days=draw(st.integers(0, 20)))) if draw(st.booleans()) else None
     E = BASE + timedelta(days=draw(st.integers(30, 40)), hours=draw(st.sampled_from([0, 0, 0, 10, 23])),
                          minutes=draw(st.sampled_from([0, 0, 30])))
     return dict(dir='bwd', spec=spec, res=rs, P=iso(E), N=iso(datetime(2020, 1, 1)), balance=draw(st.booleans()) if balance is None else balance,
